@@ -110,6 +110,7 @@ def generate(ctx, quick):
                 if k not in seen:
                     seen.add(k)
                     vectors.append(v)
+    vectors.sort(key=lambda v: core.canon(v["nodes"]))      # TLC's workers print in no particular order; ids and mutants must not depend on it
     return vectors
 
 
@@ -358,6 +359,9 @@ def selftest(ctx, cases):
 def run(ctx):
     quick = ctx.quick()
     lock_subdir(ctx)
+    # the recursive operators of DSLProgram.tla (context of a call = context opened by its parent ...) go as deep as the
+    # programs nest; TLC's worker threads need more than the default Java stack for the deepest mutants
+    os.environ["_JAVA_OPTIONS"] = "-Xss64m"
     ctx.cov["rule"] = ("programs = trees of DSL calls (function x name token x type/value token x variant, nesting) enumerated or simulated by TLC from "
                        "DSLProgram.tla plus seeded mutants of them; each executed alone in a child process on the real dsl/eval/expr code; "
                        "non-trivial = program with at least 4 calls, nesting depth >= 2 and at least one of: a misplaced call, an argument outside the "
@@ -470,6 +474,7 @@ def function_coverage(ctx, host, lines):
 # ------------------------------------------------------------------ replay
 def replay(ctx, rp):
     lock_subdir(ctx)
+    os.environ["_JAVA_OPTIONS"] = "-Xss64m"
     case = rp["case"]
     host = cp.Host(ctx)
     prog = case["program"]
